@@ -53,7 +53,7 @@ vars == <<inp, pc, n2b, slice, bx, order, k, atoms, inters, medges, gattr, added
 (* deviation flag settings *)
 NoDev == [unsorted |-> FALSE, firstKeeps |-> FALSE, sliceAny |-> FALSE, offByOne |-> FALSE, renumber |-> FALSE,
           keepRemoved |-> FALSE, firstFragUnshifted |-> FALSE, treeEdges |-> FALSE, dedupKey |-> FALSE,
-          exMax |-> FALSE, exTagLost |-> FALSE, exCutoff |-> FALSE, modAnyRes |-> FALSE, versionInKey |-> FALSE, fragIdOrder |-> FALSE]
+          exMax |-> FALSE, exTagLost |-> FALSE, exCutoff |-> FALSE, modAnyRes |-> FALSE, versionInKey |-> FALSE, fragIdOrder |-> FALSE, modAnyName |-> FALSE]
 DevUnsorted == [NoDev EXCEPT !.unsorted = TRUE]
 DevFirstKeeps == [NoDev EXCEPT !.firstKeeps = TRUE]
 DevSliceAny == [NoDev EXCEPT !.sliceAny = TRUE]
@@ -67,6 +67,7 @@ DevExMax == [NoDev EXCEPT !.exMax = TRUE]
 DevExTagLost == [NoDev EXCEPT !.exTagLost = TRUE]
 DevExCutoff == [NoDev EXCEPT !.exCutoff = TRUE]
 DevModAnyRes == [NoDev EXCEPT !.modAnyRes = TRUE]
+DevModAnyName == [NoDev EXCEPT !.modAnyName = TRUE]
 \* what the tree currently does: the open findings switched on (known_findings.d)
 DevVersionInKey == [NoDev EXCEPT !.versionInKey = TRUE]
 DevF32 == [NoDev EXCEPT !.fragIdOrder = TRUE]
@@ -468,7 +469,8 @@ RECURSIVE ModFold(_, _, _, _)
 ModFold(I, A, X, s) ==
   IF s > Len(ModSel(I)) THEN [atoms |-> A, inters |-> X]
   ELSE LET se == ModSel(I)[s] IN
-       IF ~ModEligible(I, se) THEN ModFold(I, A, X, s + 1)
+       \* Dev.modAnyName: the residue name is not (or too loosely, seed-C01-2: by prefix) compared with the amino-acid names
+       IF ~(ModEligible(I, se) \/ (Dev.modAnyName /\ \E x \in DOMAIN FM(I) : FM(I)[x].name = se.mod)) THEN ModFold(I, A, X, s + 1)
        ELSE LET md == ModNamed(I, se.mod)
                 \* Dev.modAnyRes: atoms are looked up by name in the whole molecule instead of the target residue
                 scope == IF Dev.modAnyRes THEN (1..Len(A)) \ removed ELSE gattr[se.pos]
